@@ -1,0 +1,58 @@
+//go:build verif
+
+package hsms
+
+import (
+	"context"
+	"sync/atomic"
+)
+
+// This file exists only under the `verif` build tag. It exports a seam for the external
+// verification harness (/verif, properties C10/C11): it adds code only and changes no production
+// behaviour.
+
+// verifParkTransport decorates the connection's transport: every method delegates to the real
+// transport; ArmStart and Start first call the harness callback with the ordinal of the call
+// (1 = the first ArmStart / Start of the connection's life, made by Open), so the harness can PARK
+// the caller — Open or the reconnect loop — at the moment it enters the transport, i.e. widen the
+// few-instruction windows between the core's fences and the transport's own.
+type verifParkTransport struct {
+	transport
+
+	arms, starts atomic.Int64
+	beforeArm    func(n int)
+	beforeStart  func(n int)
+}
+
+func (p *verifParkTransport) ArmStart() {
+	n := int(p.arms.Add(1))
+	if p.beforeArm != nil {
+		p.beforeArm(n)
+	}
+
+	p.transport.ArmStart()
+}
+
+func (p *verifParkTransport) Start(ctx context.Context, rt TransportRuntime) error {
+	n := int(p.starts.Add(1))
+	if p.beforeStart != nil {
+		p.beforeStart(n)
+	}
+
+	return p.transport.Start(ctx, rt)
+}
+
+// VerifParkTransport wraps c's transport (c may be the engine or an hsmsss / secs1 wrapper around
+// it) so that beforeArm(n) runs at the entry of every tr.ArmStart and beforeStart(n) at the entry of
+// every tr.Start; either may be nil. It must be called before Open. It reports false when the
+// engine behind c was not found.
+func VerifParkTransport(c Connection, beforeArm, beforeStart func(n int)) bool {
+	core := verifCore(c)
+	if core == nil || core.tr == nil {
+		return false
+	}
+
+	core.tr = &verifParkTransport{transport: core.tr, beforeArm: beforeArm, beforeStart: beforeStart}
+
+	return true
+}
